@@ -51,6 +51,7 @@ class ConcMixin(object):
                               decisions=info['decisions'], results=info['results'],
                               wire=info['wire'], hang=info['hang'],
                               violations=info['violations'], other=info['other'],
+                              thread_crashes=info['thread_crashes'], live_tasks=info['live_tasks'],
                               log=info['log'], profile='conc:' + fam, steps=[]))
 
     def conc_cases(self, tier, seed):
@@ -128,6 +129,18 @@ def gen_close(rnd):
         threads.append([(2, ('declare', b'other')), (2, ('publish', b'Ax', False))])
     cons = [(1, b'ct')] if rnd.random() < 0.4 else []
     return dict(nchan=nchan, threads=threads, consumers=cons)
+
+
+def gen_connclose(rnd):
+    """C11 (last clause): connection.close() from 1-3 threads, channels busy or idle."""
+    nchan = rnd.choice([0, 1, 2])
+    threads = [[(0, ('conn_close',))] for _ in range(rnd.choice([1, 2, 2, 3]))]
+    if rnd.random() < 0.3:
+        threads[0].append((0, ('conn_close',)))          # and once more afterwards
+    for c in range(1, nchan + 1):
+        if rnd.random() < 0.5:
+            threads.append([(c, rnd.choice([('declare', b'k%d' % c), ('publish', b'Ax', False)]))])
+    return dict(nchan=nchan, threads=threads, heartbeat=rnd.choice([0, 60]))
 
 
 def gen_alloc(rnd):
